@@ -12,7 +12,7 @@ TRUSTED_BASE = [
     "the /verif engine and rule code",
     "library contracts in engine/contracts.py (std, nom 7.1.3, bytes, byteorder, memchr, quick-xml 0.29, futures 0.3)",
     "spec tables under rules/spec (transcribed from the AUTOSAR DLT PRS and the property statements)",
-    "axioms: 64-bit target; lengths of live slices/Vec/String <= 2^56; Assert success edges are the only continuation",
+    "axioms: 64-bit target; lengths of live slices/Vec/String <= 2^56 (address-space axiom); a 64-bit loop counter incremented by a constant <= 65536 per iteration does not overflow (counter axiom); Assert success edges are the only continuation",
 ]
 
 
